@@ -59,7 +59,7 @@ var c17Clock int64
 // c17Run runs one trial. Deviations other than race-detector reports (a value
 // that differs from the sequential baseline, a Run that fails or panics only
 // concurrently, a modified weight) are re-examined: the same trial is re-run up
-// to three times. A defect of the library's own synchronisation shows again (the
+// to eight times. A defect of the library's own synchronisation shows again (the
 // seeded changes of this kind reproduce in every trial that reaches them); a
 // deviation that never shows again is attributed to the recorded finding
 // "tensor memory freed while referenced through a uintptr" (gorgonia's unsafe
@@ -72,7 +72,7 @@ func c17Run(c *Ctx) {
 		return
 	}
 	reproduced := 0
-	for k := 0; k < 3 && reproduced == 0; k++ {
+	for k := 0; k < 8 && reproduced == 0; k++ {
 		c.R = gen.ForCase(c.Seed, c.Prop, c.Idx)
 		if again := c.Captured(func() { c17Trial(c) }); len(again) > 0 {
 			reproduced = k + 1
@@ -86,7 +86,7 @@ func c17Run(c *Ctx) {
 		return
 	}
 	c.Count("deviations-not-reproduced", 1)
-	c.Violation(GCFindingSignature, "%s: %s [not shown again in 3 re-runs of the same trial]", first[0].Sig, first[0].Detail)
+	c.Violation(GCFindingSignature, "%s: %s [not shown again in 8 re-runs of the same trial]", first[0].Sig, first[0].Detail)
 }
 
 // GCFindingSignature names the recorded C17 finding (see GCProbe).
